@@ -491,7 +491,9 @@ func c12XMLSQL(w *run.Worker) {
 		`<a><b>x & y</b></a>`, `<a><b>x&nbsp;y</b></a>`, `<a x=1><b>2</b></a>`, `<a><b checked>3</b></a>`, `<a><b>4</c></a>`, `<a><b>5</b></a><a><b>6</b></a>`, `<a><b>7</b>`,
 		`<a><b>&amp;&#65;&lt;</b></a>`, `<a><![CDATA[<b>8</b>]]><b>9</b></a>`, "<a>\n <b>\n  10\n </b>\n</a>", `<A><B>upper</B></A>`,
 	}
-	queries := []string{"/a/b", "/a/b[2]", "//d", "/a/@x", "/a/b/text()", "/root/item[@id='7']", "/nomatch", "//*", "/a", "count(/a/b)", "/a/b[", "", "//b[last()]"}
+	queries := []string{"/a/b", "/a/b[2]", "//d", "/a/@x", "/a/b/text()", "/root/item[@id='7']", "/nomatch", "//*", "/a", "count(/a/b)", "/a/b[", "", "//b[last()]",
+		// well-formed expressions on which the XPath engine gives up while evaluating (argument types, bad inner regexp)
+		"//b[starts-with(1, 2)]", "//b[substring(., 0, 1)='1']", "//b[matches(., '(')]", "//b[contains(1, 2)]", "//b[sum('x')]", "//b[ends-with(1, 2)]"}
 	dests := []nodeFn{func() *rt.Node { return Id("dst") }, func() *rt.Node { return S("dst") }, func() *rt.Node { return rt.Attr(Id("dst"), Id("sub")) }, func() *rt.Node { return Id("k") }}
 	for _, d := range docs {
 		for _, q := range queries {
